@@ -371,6 +371,7 @@ class Region:
         self.name = name
         self.size = size        # Lin (bytes)
         self.kind = kind        # "storage" | "contract" | "local" | "alloc"
+        self.rec = None         # record name when the area is an array of records (elements become objects on access)
 
     def __repr__(self):
         return "<%s#%d size=%r>" % (self.name, self.id, self.size)
@@ -567,6 +568,7 @@ class Obligation:
         self.exact = exact
 
 
+PTRDIFF_MAX = (1 << 63) - 1
 COPY_FUNCS = {"memcpy": (0, 1, 2, True), "memmove": (0, 1, 2, False), "__builtin_memcpy": (0, 1, 2, True), "__builtin_memmove": (0, 1, 2, False),
               "mempcpy": (0, 1, 2, True)}
 SET_FUNCS = {"memset": (0, 2), "__builtin_memset": (0, 2), "bzero": (0, 1)}
@@ -596,6 +598,9 @@ class LinAnalysis:
         self.track_fields = set()  # member names whose stores are remembered per object ("stored" marks)
         self.track_writes = False   # remember how far writes into each area reached (USEDCOVER)
         self.flex = {}             # record -> (member array, bytes before it): inline area that extends to the end of the allocation
+        self.track_wraps = False   # unsigned results that may have wrapped are resolved once a later test decides it
+        self.noeffect = 0          # > 0 while a condition is read again for refinement: steps and assignments are not repeated
+        self.peel = False          # first iteration of a loop is analysed on its own (the entry state is not joined into the head state)
         self.state_budget = None   # deterministic cut: number of block states processed
         self.over_budget = False
         self.cur = None
@@ -816,6 +821,16 @@ class LinAnalysis:
                         st.add(Lin.const(spec[3]) - sz)
                     reg = Region("*" + p["n"], sz, "contract")
                     st.env[loc] = Ptr(reg, Lin.const(0), maybe_null=spec[2] if len(spec) > 2 else True)
+                elif spec and spec[0] == "records":
+                    cnt = pvals.get(spec[1]) if isinstance(spec[1], str) else Lin.const(spec[1])
+                    R = self.prog.records.get(to.get("name")) or {}
+                    rsz = R.get("size", 0) or to.get("sz", 0) or 1
+                    if cnt is None:
+                        cnt = self.fresh(st, "count." + p["n"], 0, PTRDIFF_MAX // rsz)
+                    st.add(Lin.const(PTRDIFF_MAX // rsz) - cnt)
+                    reg = Region("*" + p["n"], cnt.scale(rsz), "contract")
+                    reg.rec = to.get("name")
+                    st.env[loc] = Ptr(reg, Lin.const(0), maybe_null=spec[2] if len(spec) > 2 else True)
                 elif spec and spec[0] == "scalar":
                     st.env[loc] = AddrOf(("x", fr.id, p["id"]))
                 elif to.get("k") in ("int", "enum", "bool") and to.get("sz", 1) > 1 or (to.get("k") == "ptr"):
@@ -873,6 +888,24 @@ class LinAnalysis:
                 what, ptr.off, n, ptr.region.name, ptr.region.size, "" if lo_ok else " [start may precede the region]", " / ".join(st.trail[-8:]))
         self.oblige("ACCESS", fr, e, ok, detail)
 
+    def elem_object(self, st, fr, e, reg, off):
+        """element of an array of records at byte offset off: the object that stands for it (created on first access,
+        invariant assumed; the same offset gives the same object as long as nothing was stored into the array)"""
+        R = self.prog.records.get(reg.rec)
+        if not R:
+            return None
+        sz = R.get("size", 0) or 0
+        self.check_access(st, fr, e, Ptr(reg, off), Lin.const(sz), "element access")
+        lst = st.env.get(("elems", reg.id), ())
+        for o2, obj in lst:
+            if o2 == off or st.entails_eq(o2, off):
+                return obj
+        self.nobj += 1
+        obj = "E%d" % self.nobj
+        self.make_object(st, fr.f, reg.rec, obj, "", assume=True)
+        st.env[("elems", reg.id)] = lst[-5:] + ((off, obj),)
+        return obj
+
     # ---- evaluation ------------------------------------------------------------------------------------------
     def lval(self, e, st, fr):
         """location of an lvalue expression"""
@@ -892,11 +925,17 @@ class LinAnalysis:
                 pv = self.ev(b, st, fr)
                 if isinstance(pv, ObjPtr) and not pv.boff:
                     return ("f", pv.obj, pv.prefix + e["f"])
+                if isinstance(pv, Ptr) and pv.region is not None and pv.region.rec:
+                    obj = self.elem_object(st, fr, e, pv.region, pv.off)
+                    return ("f", obj, e["f"]) if obj else None
                 if isinstance(pv, Ptr) and pv.region is None:
                     self.oblige("NULLDEREF", fr, e, False, "member %s of a pointer that is null on this path: %s" % (e["f"], " / ".join(st.trail[-8:])))
                     st.dead = True
                 return None
             bl = self.lval(b, st, fr)
+            if isinstance(bl, MemLoc) and bl.region.rec:
+                obj = self.elem_object(st, fr, e, bl.region, bl.off)
+                return ("f", obj, e["f"]) if obj else None
             if bl is None or isinstance(bl, MemLoc):
                 return None
             if bl[0] == "o":
@@ -916,6 +955,9 @@ class LinAnalysis:
             if isinstance(pv, ObjPtr):
                 return ("o", pv.obj, pv.prefix)
             if isinstance(pv, Ptr) and pv.region is not None:
+                if pv.region.rec and f.T(e.get("t")).get("k") == "record":
+                    obj = self.elem_object(st, fr, e, pv.region, pv.off)
+                    return ("o", obj, "") if obj else None
                 sz = f.T(e.get("t")).get("sz", 1) or 1
                 return MemLoc(pv.region, pv.off, sz, pv.maybe_null)
             return None
@@ -927,6 +969,9 @@ class LinAnalysis:
                 own = st.env.get(("powner", pv.region.id))
                 if own is not None and iv.is_const() and iv.c == -1 and f.T(e.get("t")).get("k") == "record" and st.entails_eq(pv.off, Lin.const(0)):
                     return ("o", own[0], own[1])
+                if pv.region.rec and f.T(e.get("t")).get("k") == "record":
+                    obj = self.elem_object(st, fr, e, pv.region, pv.off + iv.scale(sz))
+                    return ("o", obj, "") if obj else None
                 return MemLoc(pv.region, pv.off + iv.scale(sz), sz, pv.maybe_null)
             return None
         if k == "cast":
@@ -1034,6 +1079,11 @@ class LinAnalysis:
             st.env.pop(loc, None)
         else:
             st.env[loc] = v
+        if loc[0] == "f" and isinstance(loc[1], str) and loc[1][:1] == "E":
+            # another offset expression may name the same element: only this object keeps standing for its element
+            for k in [k for k in st.env if k[0] == "elems"]:
+                if any(o == loc[1] for x, o in st.env[k]):
+                    st.env[k] = tuple((x, o) for x, o in st.env[k] if o == loc[1])
         if loc[0] == "f" and self.track_fields and loc[2].rsplit(".", 1)[-1] in self.track_fields:
             st.env[("stored", loc[1], loc[2])] = Lin.const(1)
         if loc[0] == "f" and isinstance(loc[1], str) and loc[1][0] in "PLC":
@@ -1070,7 +1120,14 @@ class LinAnalysis:
             if st.entails(-v - Lin.const(1)) and st.entails(v + Lin.const(m)):
                 return v + Lin.const(m)
         self.events.append(("wrap", f.name, repr(v), " / ".join(st.trail[-6:])))
-        return self.fresh(st, "w", rg[0], rg[1])
+        w = self.fresh(st, "w", rg[0], rg[1])
+        if self.track_wraps and not T.get("signed"):
+            # whether this wrapped is often decided by the test the value sits in (`while (n--)`): remember what it stands for
+            pend = [k for k in st.env if k[0] == "wrapof"]
+            for k in pend[:-3]:
+                del st.env[k]
+            st.env[("wrapof", list(w.t)[0])] = (v, rg[1] + 1)
+        return w
 
     def ev(self, e, st, fr, top=False):
         if not isinstance(e, dict):
@@ -1246,6 +1303,19 @@ class LinAnalysis:
         if op == "*":
             loc = self.lval(e, st, fr)
             return self.load(loc, st, fr, e)
+        if op in ("++", "--") and self.noeffect:
+            # re-reading a condition that was evaluated already: the step was taken, only its value is wanted
+            loc = self.lval(e["e"], st, fr)
+            cur = self.load(loc, st, fr, e["e"])
+            if not e.get("post"):
+                return cur
+            d = 1 if op == "++" else -1
+            if isinstance(cur, Lin):
+                return cur - Lin.const(d)
+            if isinstance(cur, Ptr) and cur.region is not None:
+                sz = f.T(f.pointee(e["e"].get("t"))).get("sz", 1) or 1
+                return Ptr(cur.region, cur.off - Lin.const(d * sz), cur.maybe_null)
+            return None
         if op in ("++", "--"):
             loc = self.lval(e["e"], st, fr)
             old = self.load(loc, st, fr, e["e"])
@@ -1473,6 +1543,10 @@ class LinAnalysis:
     def ev_bin(self, e, st, fr):
         f = fr.f
         op = e["op"]
+        if self.noeffect and op.endswith("=") and op not in ("==", "!=", "<=", ">="):
+            return self.load(self.lval(e["a"], st, fr), st, fr, e["a"])
+        if self.noeffect and op == ",":
+            return self.ev(e["b"], st, fr)
         if op == "=":
             rec = self.record_of(f, e.get("t"))
             v = self.ev(e["b"], st, fr)
@@ -1528,7 +1602,11 @@ class LinAnalysis:
             if inner.get("post") and isinstance(v, Lin):
                 v = v - Lin.const(1 if inner["op"] == "++" else -1)
         else:
-            return self.ev(e, st, fr)
+            self.noeffect += 1
+            try:
+                return self.ev(e, st, fr)
+            finally:
+                self.noeffect -= 1
         for c in reversed(casts):
             if c.get("ck") == "IntegralCast" and isinstance(v, Lin):
                 v = self.conv(v, st, fr.f, c.get("t"))
@@ -1660,7 +1738,7 @@ class LinAnalysis:
             m = cval(c["b"]) if cval(c["b"]) is not None else cval(c["a"])
             xe = c["a"] if cval(c["b"]) is not None else c["b"]
             if m is not None and m > 0 and (m & (m - 1)) == 0:
-                x = self.ev(xe, st, fr)
+                x = self.evq(xe, st, fr)
                 if isinstance(x, Lin) and len(x.t) == 1 and x.c == 0 and list(x.t.values()) == [1]:
                     sym = list(x.t)[0]
                     km, kv = st.env.get(("bits", sym), (0, 0))
@@ -1700,12 +1778,38 @@ class LinAnalysis:
                 return [st]
         return self.assume_val(c, c, truth, st, fr)
 
+    def resolve_wraps(self, st):
+        for k in [k for k in st.env if k[0] == "wrapof"]:
+            v, m = st.env[k]
+            w = Lin.sym(k[1])
+            if st.entails(v) and st.entails(Lin.const(m - 1) - v):
+                val = v
+            elif st.entails(-v - Lin.const(1)) and st.entails(v + Lin.const(m)):
+                val = v + Lin.const(m)
+            else:
+                continue
+            del st.env[k]
+            st.add(w - val)
+            st.add(val - w)
+            # the symbol is written out where it is bound: later joins compare the expressions themselves
+            sub = {k[1]: val}
+            for tab in (st.env, st.cache):
+                for kk, x in list(tab.items()):
+                    if isinstance(x, Lin) and k[1] in x.t:
+                        tab[kk] = x.subst(sub)
+                    elif isinstance(x, Ptr) and x.region is not None and k[1] in x.off.t:
+                        tab[kk] = Ptr(x.region, x.off.subst(sub), x.maybe_null)
+
     def assume_cmp(self, op, a, b, st):
         cons = self.cmp_lin(op, a, b)
         if cons is not None:
             for x in cons:
                 st.add(x)
-            return [st] if st.feasible() else []
+            if not st.feasible():
+                return []
+            if self.track_wraps:
+                self.resolve_wraps(st)
+            return [st]
         # a != b : two half spaces
         s2 = st.copy()
         st.add(b - a - Lin.const(1))
@@ -1773,7 +1877,11 @@ class LinAnalysis:
                     return [st] if st.feasible() else []
                 if st.entails(v):
                     st.add(v - Lin.const(1))
-                    return [st] if st.feasible() else []
+                    if not st.feasible():
+                        return []
+                    if self.track_wraps:
+                        self.resolve_wraps(st)
+                    return [st]
                 if st.entails(-v):
                     st.add(-v - Lin.const(1))
                     return [st] if st.feasible() else []
@@ -1783,7 +1891,11 @@ class LinAnalysis:
                 return [s for s in (st, s2) if s.feasible()]
             st.add(v)
             st.add(-v)
-            return [st] if st.feasible() else []
+            if not st.feasible():
+                return []
+            if self.track_wraps:
+                self.resolve_wraps(st)
+            return [st]
         if isinstance(v, (Ptr, ObjPtr, AddrOf)):
             return self.assume_nullness(src, v, not truth, st, fr)
         return [st]
@@ -1964,6 +2076,24 @@ class LinAnalysis:
                 stack.extend(f.blocks[x].preds)
         f._lin_loops = loops
         f._lin_depth = {b: sum(1 for h in loops if b in loops[h]) for b in f.blocks}
+        # innermost loop of each block, and what lies downstream of each loop head (forward edges only)
+        f._lin_inner = {}
+        for b in f.blocks:
+            hs = [h for h in loops if b in loops[h]]
+            if hs:
+                f._lin_inner[b] = min(hs, key=lambda h: len(loops[h]))
+        f._lin_down = {}
+        for h in loops:
+            seen = {h}
+            stack = [h]
+            while stack:
+                x = stack.pop()
+                for y in f.blocks[x].succ:
+                    if y is None or y not in f.blocks or (x, y) in back or y in seen:
+                        continue
+                    seen.add(y)
+                    stack.append(y)
+            f._lin_down[h] = seen
         return back
 
     def run_function(self, f, args, st, fr, this=None):
@@ -1994,10 +2124,21 @@ class LinAnalysis:
             budget -= 1
             # blocks inside loops first: a loop is run to its fixpoint before what follows it
             work.sort(key=lambda b: (depth.get(b, 0), -topo.get(b, 0)))
-            bid = work.pop()
+            bid = work[-1]
+            # a block of a loop waits for work that is neither in that loop nor downstream of its head: such work may
+            # still feed the loop's entry (the head would otherwise be joined once per arriving entry state)
+            for _ in range(len(work)):
+                h = f._lin_inner.get(bid)
+                if h is None:
+                    break
+                pre = [w for w in work if w != bid and w not in loops[h] and w not in f._lin_down[h]]
+                if not pre:
+                    break
+                bid = min(pre, key=lambda b: topo.get(b, 0))
+            work.remove(bid)
             sts = pending.pop(bid, [])
             # exit states of a loop round that was superseded are covered by the later round
-            sts = [s for s in sts if not any(k[0] == fr.id and k[1] in loops and bid not in loops[k[1]] and r < head_rounds.get(k[1], 0) - 1
+            sts = [s for s in sts if not any(k[0] == fr.id and k[1] in loops and bid not in loops[k[1]] and r < head_rounds.get(k[1], 0) - 1 and not (self.peel and r == 0)
                                              for k, r in s.gen.items())]
             if not sts:
                 continue
@@ -2143,6 +2284,14 @@ class LinAnalysis:
         """loop head: one state; returns None when the head state already covers what arrives"""
         if old is None and len(incoming) == 1:
             return incoming[0]
+        if self.peel and rounds == 1 and old is not None:
+            # the entry state was run through the body by itself; the head state proper starts with what comes round
+            incoming = [s for s in incoming if not self.covered(old, s)]
+            if not incoming:
+                return None
+            if len(incoming) == 1:
+                return incoming[0]
+            return self.weak_join(incoming, has_old=False, at_head=True)[0]
         if old is not None:
             incoming = [s for s in incoming if not self.covered(old, s)]
             if not incoming:
